@@ -71,9 +71,10 @@ def run(tier, seed):
                 # deterministic boundary sequence first (corpus of past failures), then random ones
                 fixed = [[("w", l), ("p" if d == "server" else "w", 7)] for l in (0x7FFB, 0x7FFC, 0x7FFD, 0x7FFE, 0x7FFF, 0x8000)]
                 if exp == "wrath" and d == "server":
-                    # the 3-byte size field goes beyond 16 bits: bodies around and above 2^16
-                    fixed += [[("p", 3), ("w", l), ("p", 9)] for l in (65531, 65533, 65534, 65535, 65536, 65537, 80004, 0x20000)]
-                seqs = fixed + [[(("p" if (d == "server" and rng.below(4) == 0) else "w"), (rng.choice(pool + ([65534, 65536, 70000, 131072] if (exp == "wrath" and d == "server") else [])) if rng.below(3) == 0 else rng.below(400))) for _ in range(1 + rng.below(30))] for _ in range(nseq)]
+                    # the 3-byte size field: bodies up to the published limit of the endless array the `w` message carries (65 535 bytes); larger
+                    # bodies come from counted arrays in part (c)
+                    fixed += [[("p", 3), ("w", l), ("p", 9)] for l in (65531, 65533, 65534, 65535)]
+                seqs = fixed + [[(("p" if (d == "server" and rng.below(4) == 0) else "w"), (rng.choice(pool + ([65533, 65535] if (exp == "wrath" and d == "server") else [])) if rng.below(3) == 0 else rng.below(400))) for _ in range(1 + rng.below(30))] for _ in range(nseq)]
                 for ms in seqs:
                     ms = [(k, (l if k == "w" else l % 1000)) for k, l in ms]
                     if exp != "wrath" or d == "client":
